@@ -37,7 +37,7 @@ add('C08', 'l1', 'Exhaustive part: the enumerated 4-locale domain (125 inherits 
 add('C09', 'l1', 'Grammar-aware adversarial mutations of generated projects (delimiters, multi-byte characters, hostile ranges / bounds / counts / references / key names, mutated manifests) run in-process under catch_unwind through parse_locales, the build-script API and the code generator; deep / long values run in child processes with an 8 MiB stack; regression inputs of all earlier panics. Oracle: Ok or a non-empty error, never a panic, abort or signal.',
     'A child still running after 120 s is inconclusive (exit 2). Stack overflows on 65-130 kB single values are recorded as known finding D9. Coverage-guided byte-level fuzzing (libFuzzer) is the second stage of the thorough tier.',
     technique='property-based testing with grammar-aware mutation (+ libFuzzer in the thorough tier), crash oracle')
-add('C10', 'l1', 'Metamorphic: repeated loads + in-process code generation (same process, fresh processes), sampled permutations of object-key order, and the same AST printed as JSON / YAML / JSON5 loaded by three feature builds must agree (byte-identical dumps within a format; key tree, diagnostics and evaluated text across formats).',
+add('C10', 'l1', 'Metamorphic: repeated loads + in-process code generation (same process, fresh processes), sampled permutations of object-key order, and the same AST printed as JSON / YAML / JSON5 loaded by three feature builds must agree (byte-identical dumps within a format; key tree, diagnostics and evaluated text across formats). Stage 2 on a harness build without the plural / formatter features: the macro flavour and the build-script flavour of the loader called alternately on one thread must each return what the project alone determines.',
     'Trusted: the three printers in ser.rs. Integers above i64::MAX are excluded (json5 has no u64).',
     technique='metamorphic property-based testing (permutation / re-run / differential across file formats)')
 add('C11', 'l1', 'Generated projects with escape-heavy literals; every Literal index is checked against its table, each table against the AST literal set, nested string counts against their top locale, and the files written by TranslationsInfos::write_to_dir are read back with serde_json.',
@@ -70,6 +70,7 @@ add('C20', 'l1', 'Generated projects where plurals and each formatter family occ
 
 ENGINES = [
     dict(name='l1', path='engine/l1 (+ l1y, l1j5: same sources built for yaml / json5)', kind_free_text='in-process parser / code-generator / build-helper harness driven by proptest choice tapes; sources of the proc-macro crate compiled in via #[path]'),
+    dict(name='l1nf', path='engine/l1nf', kind_free_text='the l1 sources built without the plural / formatter features (second stage of C10: call-history independence of the two loader flavours)'),
     dict(name='l2', path='engine/l2', kind_free_text='generated-crate tier: projects generated from choice tapes are emitted as cargo packages calling the real macros, compiled in one workspace, run, and their printed observations compared with the reference semantics (second stage of C01 C03 C04 C05 C06 C07 C08 C11 C18; sole engine of C02 C13); engine/vref is the independent ICU4X reference crate the C18 packages link'),
     dict(name='l0b', path='engine/l0b', kind_free_text='native run-time harness: router path helpers (hooks), I18nRoute, formatter parsing and run-time formatting'),
     dict(name='l0bp', path='engine/l0bp', kind_free_text='the C18 run-time harness built against leptos_i18n without icu_compiled_data (custom ICU data provider registered at start): second stage of C18'),
